@@ -78,7 +78,131 @@ theorem canon_resource (o : Oracle) (kvs : List (String × PyVal)) (henv : EnvOk
       cases v.toList.contains ':' <;> rfl
     | _ => simp only [truthy_isInstance_str, PyVal.isStr, Bool.false_eq_true, if_false]; exact hdef
 
+/-! ### stage 3: the branch -/
+
+/-- the caveat contexts the theorems speak about: `context._rebac` and the condition's `ctx` are not non-empty lists / strs (`dict(…)` of
+    those — pairs, TypeError, ValueError — is not represented; the model says TypeError) -/
+structure CtxOk (env expr : PyVal) : Prop where
+  rebac : noSeq ((PyVal.por (env.get "context") (.dict [])).get "_rebac") = true
+  localCtx : noSeq (expr.get "ctx") = true
+
+/-- THE tie for C13, on the state of the translation: for EVERY memo state `st` (a dict with any content, or not a dict), every checker
+    outcome function `f` (absent / any returned value / raises) and every `rel` expression (str, dict, anything else), one run of the
+    branch as the source has it NOW does what `relStep` says with the lookup the MODEL's `relQuery` computes: nothing to ask or nobody
+    to ask ⇒ `False`, nobody called (fail closed); memo probed first with the canonical key; on a miss ONE call with the model's
+    canonical (subject, relation, resource, merged context); a raise ⇒ `False` (fail closed); the answer stored under the key -/
+theorem rel_range_step (o : Oracle) (hf : PyVal → String) (ctx_hash : PyVal → Except CondErr PyVal) (hhash : ∀ c, ctx_hash c = .ok (.str (hf c)))
+    (raw : PyVal → PyVal → PyVal → Except CondErr PyVal) (hraw : ∀ r l t, raw r l t = .ok r) (f : Checker) (loop : PyVal)
+    (ckvs : List (String × PyVal)) (hrel : PyVal.hasKey (.dict ckvs) "rel" = true) (ekvs : List (String × PyVal)) (henv : EnvOk (.dict ekvs))
+    (hctx : CtxOk (.dict ekvs) ((PyVal.dict ckvs).get "rel")) (st : St) :
+    Src.rel_range o noAttr ctx_hash raw f loop (.dict ckvs) (.dict ekvs) st =
+      relStep hf f (relQuery o ((PyVal.dict ckvs).get "rel") (.dict ekvs)) st := by
+  unfold Src.rel_range
+  rw [itemE_key ckvs "rel" hrel, bindE_ok]
+  obtain ⟨h1, h2⟩ := hctx
+  generalize (PyVal.dict ckvs).get "rel" = expr at h2 ⊢
+  rw [relQuery_eq]
+  cases expr with
+  | str s =>
+    simp only [truthy_isInstance_str, PyVal.isStr, if_true, canon_subject o ekvs henv, canon_resource o ekvs henv, bindE_ok]
+    exact relRest_spec hf ctx_hash hhash raw hraw f loop (.dict ekvs) henv _ s _ .none h1 rfl st
+  | dict kvs =>
+    simp only [truthy_isInstance_str, truthy_isInstance_dict, PyVal.isStr, PyVal.isDict, Bool.false_eq_true, if_false, if_true,
+      getE_dict (.dict kvs) _ rfl, bindE_ok, canon_subject o ekvs henv, canon_resource o ekvs henv, strO]
+    exact relRest_spec hf ctx_hash hhash raw hraw f loop (.dict ekvs) henv _ _ _ ((PyVal.dict kvs).get "ctx") h1 h2 st
+  | _ => rfl
+
+/-- … and on the image of a MODEL state (`encSt`: a dict memo holding the model's entries under the source's keys, the calls made so far)
+    that is the model's memoised `rel` node `evalRelM` — same answer or exception, same memo afterwards, same calls — with the model's
+    checker = the truth value of the outcome (`absChecker`).  `hinj`: `_ctx_hash` identifies exactly the contexts `normCtx` identifies.
+    So `Rbacx.C13.c13_at_most_once` / `c13_calls_are_memoised` / `c13_memo_transparent` (theorems about `evalRelM` threaded through a
+    decision) and `c13_canonical_*` / `c13_fail_closed_*` (about `relQuery` / `evalRel`) speak about the current source of the branch -/
+theorem rel_range_model (o : Oracle) (hf : PyVal → String) (hinj : ∀ a b, (hf a == hf b) = (normCtx a == normCtx b))
+    (ctx_hash : PyVal → Except CondErr PyVal) (hhash : ∀ c, ctx_hash c = .ok (.str (hf c)))
+    (raw : PyVal → PyVal → PyVal → Except CondErr PyVal) (hraw : ∀ r l t, raw r l t = .ok r) (f : Checker) (loop : PyVal)
+    (ckvs : List (String × PyVal)) (hrel : PyVal.hasKey (.dict ckvs) "rel" = true) (ekvs : List (String × PyVal)) (henv : EnvOk (.dict ekvs))
+    (hctx : CtxOk (.dict ekvs) ((PyVal.dict ckvs).get "rel")) (mst : RelSt) :
+    Src.rel_range o noAttr ctx_hash raw f loop (.dict ckvs) (.dict ekvs) (encSt hf mst) =
+      (((evalRelM { o := o, env := .dict ekvs, checker := f.map absChecker } ((PyVal.dict ckvs).get "rel") mst).1).map PyVal.bool,
+       encSt hf (evalRelM { o := o, env := .dict ekvs, checker := f.map absChecker } ((PyVal.dict ckvs).get "rel") mst).2) := by
+  rw [rel_range_step o hf ctx_hash hhash raw hraw f loop ckvs hrel ekvs henv hctx, relStep_model hf hinj]
+
+/-- without a memo (`REL_LOCAL_CACHE.get()` is not a dict), or with an empty one, the answer is the model's PURE `evalRel` -/
+theorem rel_range_pure (o : Oracle) (hf : PyVal → String) (ctx_hash : PyVal → Except CondErr PyVal) (hhash : ∀ c, ctx_hash c = .ok (.str (hf c)))
+    (raw : PyVal → PyVal → PyVal → Except CondErr PyVal) (hraw : ∀ r l t, raw r l t = .ok r) (f : Checker) (loop : PyVal)
+    (ckvs : List (String × PyVal)) (hrel : PyVal.hasKey (.dict ckvs) "rel" = true) (ekvs : List (String × PyVal)) (henv : EnvOk (.dict ekvs))
+    (hctx : CtxOk (.dict ekvs) ((PyVal.dict ckvs).get "rel")) (memo : Option (List (PyVal × PyVal))) (hm : memo = Option.none ∨ memo = some [])
+    (calls : List (List PyVal)) :
+    (Src.rel_range o noAttr ctx_hash raw f loop (.dict ckvs) (.dict ekvs) { memo := memo, calls := calls }).1 =
+      (evalRel { o := o, env := .dict ekvs, checker := f.map absChecker } ((PyVal.dict ckvs).get "rel")).map PyVal.bool := by
+  rw [rel_range_step o hf ctx_hash hhash raw hraw f loop ckvs hrel ekvs henv hctx]
+  unfold relStep evalRel
+  simp only [Bind.bind, Except.bind, Pure.pure, Except.pure]
+  cases relQuery o ((PyVal.dict ckvs).get "rel") (.dict ekvs) with
+  | error e => rfl
+  | ok q =>
+    cases q with
+    | none => rfl
+    | some key =>
+      cases f with
+      | none => rfl
+      | some g => rcases hm with rfl | rfl <;> rfl
+
+/-- the checker is consulted at most once per run, and only with the model's canonical key -/
+theorem rel_range_calls (o : Oracle) (hf : PyVal → String) (ctx_hash : PyVal → Except CondErr PyVal) (hhash : ∀ c, ctx_hash c = .ok (.str (hf c)))
+    (raw : PyVal → PyVal → PyVal → Except CondErr PyVal) (hraw : ∀ r l t, raw r l t = .ok r) (f : Checker) (loop : PyVal)
+    (ckvs : List (String × PyVal)) (hrel : PyVal.hasKey (.dict ckvs) "rel" = true) (ekvs : List (String × PyVal)) (henv : EnvOk (.dict ekvs))
+    (hctx : CtxOk (.dict ekvs) ((PyVal.dict ckvs).get "rel")) (st : St) :
+    (Src.rel_range o noAttr ctx_hash raw f loop (.dict ckvs) (.dict ekvs) st).2.calls = st.calls ∨
+      ∃ key, relQuery o ((PyVal.dict ckvs).get "rel") (.dict ekvs) = .ok (some key) ∧ f.isSome = true ∧
+        (∀ m, st.memo = some m → memoFind m (encKey hf key) = Option.none) ∧
+        (Src.rel_range o noAttr ctx_hash raw f loop (.dict ckvs) (.dict ekvs) st).2.calls = st.calls ++ [encArgs key] := by
+  rw [rel_range_step o hf ctx_hash hhash raw hraw f loop ckvs hrel ekvs henv hctx]
+  unfold relStep
+  cases hq : relQuery o ((PyVal.dict ckvs).get "rel") (.dict ekvs) with
+  | error e => exact Or.inl rfl
+  | ok q =>
+    cases q with
+    | none => exact Or.inl rfl
+    | some key =>
+      cases f with
+      | none => exact Or.inl rfl
+      | some g =>
+        obtain ⟨memo, calls⟩ := st
+        cases memo with
+        | none => exact Or.inr ⟨key, rfl, rfl, (fun m h => by cases h), rfl⟩
+        | some m =>
+          cases hfind : memoFind m (encKey hf key) with
+          | some v => simp only [hfind]; exact Or.inl trivial
+          | none => simp only [hfind]; exact Or.inr ⟨key, rfl, rfl, (fun m' h => by cases h; exact hfind), rfl⟩
+
+/-- COROLLARY: the external parameter `rel_branch` of the translated `eval_condition` instantiated with the TRANSLATED branch (run without
+    a memo; its answer only) — on a condition document that is a `rel` node the whole translated evaluator is the model's `evalCond`.
+    (For a whole TREE of conditions the same holds node by node; the induction over the document with the translated branch in place of
+    `relExt` — it needs `CtxOk` for every `rel` node of the document — is NOT proved here: `eval_condition_rel_leaf` is the partial version.) -/
+theorem eval_condition_rel_leaf (cx : CondCtx) (hf : PyVal → String) (ctx_hash : PyVal → Except CondErr PyVal) (hhash : ∀ c, ctx_hash c = .ok (.str (hf c)))
+    (raw : PyVal → PyVal → PyVal → Except CondErr PyVal) (hraw : ∀ r l t, raw r l t = .ok r) (f : Checker) (hf' : cx.checker = f.map absChecker) (loop : PyVal)
+    (ckvs : List (String × PyVal)) (hrel : PyVal.hasKey (.dict ckvs) "rel" = true) (ekvs : List (String × PyVal)) (he : cx.env = .dict ekvs)
+    (henv : EnvOk (.dict ekvs)) (hctx : CtxOk (.dict ekvs) ((PyVal.dict ckvs).get "rel")) (n : Nat) :
+    Src.eval_condition cx.o noAttr (parseDtExt cx.o)
+        (fun c e => (Src.rel_range cx.o noAttr ctx_hash raw f loop c e { memo := Option.none, calls := [] }).1) (.dict ckvs) cx.env (n + 1) =
+      (evalCond cx (condOf (.dict ckvs))).map PyVal.bool := by
+  have hcx : cx = { o := cx.o, env := .dict ekvs, checker := f.map absChecker } := by
+    cases cx; simp_all
+  unfold Src.eval_condition
+  simp only [is_strict_e, bind_ok, truthy_pnot, truthy_isInstance_dict, PyVal.isDict, Bool.not_true, Bool.false_eq_true, if_false,
+    containsE_key, truthy_bool, hrel, if_true, he]
+  rw [rel_range_pure cx.o hf ctx_hash hhash raw hraw f loop ckvs hrel ekvs henv hctx Option.none (Or.inl rfl) []]
+  have hc : condOf (.dict ckvs) = .rel ((PyVal.dict ckvs).get "rel") := by
+    simp only [condOf, parseCond, hrel, if_true]
+  rw [hc, evalCond, ← hcx]
+
 end Rbacx.Translated
 
 #print axioms Rbacx.Translated.canon_subject
 #print axioms Rbacx.Translated.canon_resource
+#print axioms Rbacx.Translated.rel_range_step
+#print axioms Rbacx.Translated.rel_range_model
+#print axioms Rbacx.Translated.rel_range_pure
+#print axioms Rbacx.Translated.rel_range_calls
+#print axioms Rbacx.Translated.eval_condition_rel_leaf
